@@ -12,7 +12,7 @@ from ..astutil import call_attr, calls_in, guard_facts, names_in, unparse, walk_
 from ..cfg import CFG
 from ..dataflow import resolved_text
 from ..report import Finding, Report
-from ..rx_extract import class_regex
+from ..rx_extract import class_regex, escape_table
 from ..srcindex import AnalysisError, Index, raw_funcs
 
 PRINTER = "xdsl/printer.py"
@@ -77,7 +77,7 @@ def byte_forms(idx: Index) -> dict[int, str]:
                 if isinstance(a, ast.Constant):
                     form = "esc:" + a.value
                 elif isinstance(a, ast.JoinedStr):
-                    form = "hex:" + unparse(a)
+                    form = "hex:" + unparse(a).replace("{" + var + ":", "{byte:")  # the loop variable, whatever it is called
                 elif isinstance(a, ast.Call) and unparse(a) == f"chr({var})":
                     form = "raw"
                 else:
@@ -95,10 +95,7 @@ def check_bytes(idx: Index, rep: Report) -> dict[int, str]:
     pat, fl = class_regex(idx, LEXER, "MLIRLexer", "_unescaped_characters_regex")
     nfa = rx.from_regex(pat, fl)
     bc = idx.func(LEXER, "StringLiteral.bytes_contents")
-    maps = [n for n in walk_local(bc.node) if isinstance(n, ast.Assign) and isinstance(n.value, ast.Dict) and unparse(n.targets[0]) == "escape_str_mapping"]
-    if len(maps) != 1:
-        raise AnalysisError(f"{bc.fq}: escape_str_mapping not found")
-    mapping = {k.value: v.value for k, v in zip(maps[0].value.keys, maps[0].value.values)}  # type: ignore[union-attr]
+    mapping = escape_table(bc)
     # the hex decoder: int(<text>[<bs> + lo:<bs> + hi], base) where <bs> is the index of the backslash
     hexdec = None
     bcfg = CFG(bc.node)
@@ -107,14 +104,19 @@ def check_bytes(idx: Index, rep: Report) -> dict[int, str]:
             e = ast.parse(resolved_text(bcfg, c.args[0]), mode="eval").body
             sl = e.slice if isinstance(e, ast.Subscript) and isinstance(e.slice, ast.Slice) else None
             lo, hi = (sl.lower, sl.upper) if sl is not None else (None, None)
-            ok = (
-                isinstance(lo, ast.BinOp) and isinstance(hi, ast.BinOp) and isinstance(lo.op, ast.Add) and isinstance(hi.op, ast.Add)
-                and isinstance(lo.right, ast.Constant) and isinstance(hi.right, ast.Constant)
-                and unparse(lo.left) == unparse(hi.left) and ".find('\\\\'" in unparse(lo.left)
-            )
-            if not ok:
+
+            def _lin(x):
+                """x as (base expression text, integer offset): constants added on the right are peeled off"""
+                off = 0
+                while isinstance(x, ast.BinOp) and isinstance(x.op, ast.Add) and isinstance(x.right, ast.Constant) and isinstance(x.right.value, int):
+                    off += x.right.value
+                    x = x.left
+                return (unparse(x), off) if x is not None else (None, 0)
+
+            (lb, lo_off), (hb, hi_off) = _lin(lo), _lin(hi)
+            if lo is None or hi is None or lb != hb or ".find('\\\\'" not in lb:
                 raise AnalysisError(f"{bc.fq}: the digits handed to {unparse(c)} were not resolved to a slice after the backslash")
-            hexdec = (lo.right.value, hi.right.value, c.args[1].value)  # type: ignore[union-attr]
+            hexdec = (lo_off, hi_off, c.args[1].value)
     if hexdec is None:
         raise AnalysisError(f"{bc.fq}: no int(<digits>, <base>) decoder of hex escapes found")
     bad: dict[str, list[int]] = {}
